@@ -37,6 +37,9 @@ func interpSrcFile(path, outDir string) error {
 				src = src[nl+1:]
 			}
 		}
+		if strings.HasPrefix(src, "#plain\n") {
+			cancelAt, src = interpPlain, src[len("#plain\n"):]
+		}
 		line, c, ok := interpLine(src, cancelAt)
 		if !ok {
 			line = "interp (undecodable)"
